@@ -15,23 +15,24 @@ open Model.Batch Lemmas.Batch Spec.Batch
 
 /-- **C10.rowcount / C10.no_tmp / rows.**  An accepted recreate leaves no temporary table, the table under
 the original name exists, has as many rows as before, and its rows are, in order, the projections of the
-original rows through the `INSERT … SELECT` feeds. -/
-theorem rows (ct : ConvTable) (p : Plan) (db0 : Db) (t0 : Tbl) (h0 : db0.orig = some t0)
-    (hok : (C11.run ct none p db0).2 = none) :
-    (C11.final ct none false p db0).tmp = none ∧
-    ∃ t, (C11.final ct none false p db0).orig = some t ∧ t.rows = t0.rows.map (project ct t0.schema.cols p.feeds) :=
-  C11.success_no_tmp ct none false p db0 t0 h0 hok
+original rows through the `INSERT … SELECT` feeds — under every connection mode (pysqlite legacy, AUTOCOMMIT, explicit BEGIN)
+and for both values of `transactional_ddl` (a field of the plan that `_create` never reads). -/
+theorem rows (ct : ConvTable) (p : Plan) (mode : ConnMode) (db0 : Db) (t0 : Tbl) (h0 : db0.orig = some t0)
+    (hok : (C11.run ct none p db0 mode).2 = none) :
+    (C11.final ct none false p db0 mode).tmp = none ∧
+    ∃ t, (C11.final ct none false p db0 mode).orig = some t ∧ t.rows = t0.rows.map (project ct t0.schema.cols p.feeds) :=
+  C11.success_no_tmp ct none false p mode db0 t0 h0 hok
 
-theorem rowcount (ct : ConvTable) (p : Plan) (db0 : Db) (t0 : Tbl) (h0 : db0.orig = some t0)
-    (hok : (C11.run ct none p db0).2 = none) :
-    ∃ t, (C11.final ct none false p db0).orig = some t ∧ t.rows.length = t0.rows.length := by
-  obtain ⟨_, t, ht, hr⟩ := rows ct p db0 t0 h0 hok
+theorem rowcount (ct : ConvTable) (p : Plan) (mode : ConnMode) (db0 : Db) (t0 : Tbl) (h0 : db0.orig = some t0)
+    (hok : (C11.run ct none p db0 mode).2 = none) :
+    ∃ t, (C11.final ct none false p db0 mode).orig = some t ∧ t.rows.length = t0.rows.length := by
+  obtain ⟨_, t, ht, hr⟩ := rows ct p mode db0 t0 h0 hok
   exact ⟨t, ht, by rw [hr, List.length_map]⟩
 
-theorem no_tmp (ct : ConvTable) (p : Plan) (db0 : Db) (t0 : Tbl) (h0 : db0.orig = some t0)
-    (hok : (C11.run ct none p db0).2 = none) :
-    (C11.final ct none false p db0).tmp = none ∧ (C11.final ct none false p db0).orig.isSome = true := by
-  obtain ⟨h, t, ht, _⟩ := rows ct p db0 t0 h0 hok
+theorem no_tmp (ct : ConvTable) (p : Plan) (mode : ConnMode) (db0 : Db) (t0 : Tbl) (h0 : db0.orig = some t0)
+    (hok : (C11.run ct none p db0 mode).2 = none) :
+    (C11.final ct none false p db0 mode).tmp = none ∧ (C11.final ct none false p db0 mode).orig.isSome = true := by
+  obtain ⟨h, t, ht, _⟩ := rows ct p mode db0 t0 h0 hok
   exact ⟨h, by rw [ht]; rfl⟩
 
 /-! ## values: which old column feeds which new column -/
